@@ -119,7 +119,13 @@ def build(pendulum, case):
         return "Date", pendulum.Date(*case["f"]), True
     if k == "time":
         tz = None if case["tz"] is None else _tz(pendulum, case["tz"])
-        return "Time", pendulum.Time(*case["f"], tzinfo=tz), True
+        return "Time", pendulum.Time(*case["f"], tzinfo=tz, fold=case.get("fold", 0)), True
+    if k == "absdur":
+        from pendulum.duration import AbsoluteDuration
+        return "AbsoluteDuration", AbsoluteDuration(**case["kw"]), True
+    if k == "timediff":
+        # what Time.diff() hands out (an AbsoluteDuration whose native value keeps the sign)
+        return "Time.diff()", pendulum.Time(*case["t1"]).diff(pendulum.Time(*case["t2"])), True
     if k == "dur":
         return "Duration", pendulum.Duration(**case["kw"]), True
     if k == "iv":
@@ -164,6 +170,12 @@ def duration_cases():
                     s = 1 if pattern == "+" else -1 if pattern == "-" else (1 if i % 2 == 0 else -1)
                     kw[k] = s * DUR_VALS[k]
                 out.append({"k": "dur", "kw": kw})
+    for n in range(1, 4):
+        for sub in itertools.combinations(DUR_KEYS, n):
+            for sgn in (1, -1):
+                out.append({"k": "absdur", "kw": {k: sgn * DUR_VALS[k] for k in sub}})
+    for t1, t2 in (((10, 0, 0, 0), (8, 0, 0, 0)), ((8, 0, 0, 0), (10, 0, 0, 5)), ((23, 59, 59, 999999), (0, 0, 0, 0)), ((1, 2, 3, 4), (1, 2, 3, 4))):
+        out.append({"k": "timediff", "t1": list(t1), "t2": list(t2)})
     out.append({"k": "dur", "kw": {}})
     out.append({"k": "dur", "kw": {"days": 400, "hours": 25}})
     out.append({"k": "dur", "kw": {"weeks": 1}})
@@ -215,6 +227,7 @@ def run_shard(shard):
         for f in ((0, 0, 0, 0), (23, 59, 59, 999999), (12, 30, 15, 1)):
             for tz in (None, "UTC", 19800, -60, "Europe/Paris", "Australia/Lord_Howe"):
                 cases.append({"k": "time", "f": list(f), "tz": tz})
+                cases.append({"k": "time", "f": list(f), "tz": tz, "fold": 1})
         d1 = {"k": "date", "f": [2020, 1, 31]}
         d2 = {"k": "date", "f": [2021, 3, 1]}
         p1 = {"k": "dt", "z": "Europe/Paris", "inst": 1577880000000000}
@@ -237,7 +250,7 @@ def run_shard(shard):
     elif k == "durations":
         for c in shard["cases"]:
             acc.c["states"] += 1
-            if c["kw"].get("years") or c["kw"].get("months") or c["kw"].get("weeks"):
+            if c.get("kw", {}).get("years") or c.get("kw", {}).get("months") or c.get("kw", {}).get("weeks") or c["k"] != "dur":
                 acc.c["nontrivial"] += 1
             run_case(acc, pendulum, c)
         acc.sample(shard["cases"][3])
